@@ -133,28 +133,73 @@ example : ∃ s, Reachable 0 d7Threads s ∧ s.ws = [1] ∧ s.value = 0 ∧ (∀
 
 end Semaphore
 
-/-! ## ThreadBarrierMutex -/
+/-! ## ThreadBarrierMutex
+
+The barrier action is a multi-step action: it begins (`begun` + 1, trace event `actB`), takes `actYields`
+scheduling points, and ends (`actions` + 1, trace event `actE`).  `actions` counts the actions that have ENDED. -/
 
 open BarM in
 /-- **Mutex barrier: released together, action in between.** In every reachable state, for all barrier threads
-    `t`, `u`: `left t ≤ actions ≤ arrived u`.  Hence a thread has completed its (g+1)-th `wait()` only if the action
-    has run g+1 times, which in turn happened only after every thread had entered its (g+1)-th `wait()`. -/
+    `t`, `u`: `left t ≤ actions ≤ begun ≤ arrived u` (and `begun ≤ actions + 1`).  Hence a thread has completed its
+    (g+1)-th `wait()` only if the action has ENDED g+1 times, and the action has begun g+1 times only after every
+    thread had entered its (g+1)-th `wait()`. -/
 theorem barM_release_together {n gens : Nat} (hn : 1 ≤ n) {s : BarM.State} (h : BarM.Reachable n gens s)
     {t u : Nat} (ht : isBar s t) (hu : isBar s u) :
-    (getT s.thr t).left ≤ s.actions ∧ s.actions ≤ (getT s.thr u).arrived :=
-  ⟨((reachable_inv hn h).bnd t ht).2.2, ((reachable_inv hn h).bnd u hu).1⟩
+    (getT s.thr t).left ≤ s.actions ∧ s.actions ≤ s.begun ∧ s.begun ≤ s.actions + 1 ∧
+      s.begun ≤ (getT s.thr u).arrived :=
+  ⟨(reachable_inv hn h).leftEnd t ht, (reachable_inv hn h).ae.1, (reachable_inv hn h).ae.2,
+   ((reachable_inv hn h).bnd u hu).1⟩
 
 open BarM in
-/-- **Mutex barrier: the action runs once per generation, by the last arriver, before anyone is released.**
-    A transition changes `actions` only by +1, and only as part of the arrival step (`lock`) of a barrier thread
-    `t` taken when all other threads have already arrived in the current generation; afterwards every thread
-    has arrived exactly `actions` times, `t` still holds the mutex, and nobody has left the generation. -/
-theorem barM_action_by_last_arriver {n gens : Nat} (hn : 1 ≤ n) {s : BarM.State} (h : BarM.Reachable n gens s)
+/-- **Mutex barrier: the mutex is held throughout the action.** An action is in progress (`begun = actions + 1`)
+    exactly if some barrier thread is at an `act` program point, and a thread at an `act` program point owns the
+    mutex (so it is unique, and no other thread can arrive at, or leave, the barrier meanwhile). -/
+theorem barM_action_holds_mutex {n gens : Nat} (hn : 1 ≤ n) {s : BarM.State} (h : BarM.Reachable n gens s) :
+    (s.begun = s.actions + 1 ↔ ∃ t j, isBar s t ∧ (getT s.thr t).pc = .act j) ∧
+    (∀ t j, (getT s.thr t).pc = .act j → s.owner = some t) := by
+  have hi := reachable_inv hn h
+  refine ⟨⟨?_, ?_⟩, ?_⟩
+  · intro hba
+    cases ho : s.owner with
+    | none => have := hi.aeNone ho; omega
+    | some t =>
+      have hh := (hi.mutex t).mpr ho
+      have hlt : t < s.thr.length := by
+        apply Classical.byContradiction
+        intro hge
+        have : getT s.thr t = dflt := by
+          simp [getT, List.getD_eq_getElem?_getD, List.getElem?_eq_none (show s.thr.length ≤ t by omega)]
+        rw [this] at hh
+        simp [dflt] at hh
+      have hb : isBar s t := by
+        apply isBar_of_pc hi hlt
+        cases hp : (getT s.thr t).pc <;> simp [hp] at hh ⊢
+      have hpt := hi.pcs t hb
+      unfold pcOk at hpt
+      cases hp : (getT s.thr t).pc <;> simp [hp] at hh hpt
+      · omega
+      · exact ⟨t, _, hb, hp⟩
+      · omega
+      · omega
+  · rintro ⟨t, j, hb, hp⟩
+    have hpt := hi.pcs t hb
+    simp [pcOk, hp] at hpt
+    exact hpt.2.2.2
+  · intro t j hp
+    exact (hi.mutex t).mp (by simp [hp])
+
+open BarM in
+/-- **Mutex barrier: the action begins once per generation, in the last arriver.**
+    A transition changes `begun` only by +1, and only as part of the arrival step (`lock`) of a barrier thread
+    `t` taken when no action is in progress and all other threads have already arrived in the current generation;
+    afterwards every thread has arrived exactly `begun` times, `t` holds the mutex, and nobody has left the
+    generation. -/
+theorem barM_action_begin_by_last_arriver {n gens : Nat} (hn : 1 ≤ n) {s : BarM.State} (h : BarM.Reachable n gens s)
     {t c : Nat} {o} (hs : BarM.step s t c = some o) :
-    o.st.actions = s.actions ∨
-    (o.st.actions = s.actions + 1 ∧ isBar s t ∧ (getT s.thr t).pc = .lock ∧ o.st.owner = some t ∧
-      (∀ u, isBar s u → u ≠ t → (getT s.thr u).arrived = s.actions + 1) ∧
-      (∀ u, isBar s u → (getT o.st.thr u).arrived = o.st.actions ∧ (getT o.st.thr u).left < o.st.actions)) := by
+    o.st.begun = s.begun ∨
+    (o.st.begun = s.begun + 1 ∧ s.begun = s.actions ∧ isBar s t ∧ (getT s.thr t).pc = .lock ∧ o.st.owner = some t ∧
+      (∀ u, isBar s u → u ≠ t → (getT s.thr u).arrived = s.begun + 1) ∧
+      (∀ u, isBar s u → (getT o.st.thr u).arrived = o.st.begun ∧ (getT o.st.thr u).left < o.st.begun)) := by
   have hi := reachable_inv hn h
   have hi' := inv_step hs hi
   have hb' := hi'.bnd
@@ -171,8 +216,9 @@ theorem barM_action_by_last_arriver {n gens : Nat} (hn : 1 ≤ n) {s : BarM.Stat
     have hb : isBar s t := isBar_of_pc hi hlt (by simp [*])
     have hcur := lock_cur hi hb (by simp [*]))
   have hbnd := hi.bnd
-  simp only [upd_thr, setCount_thr, upd_actions, setCount_actions, upd_owner, setCount_owner] at hb' ⊢
-  refine ⟨trivial, hb, by rw [hth]; assumption, trivial, ?_, ?_⟩
+  have hown : s.owner = none := by simpa using ‹s.owner.isNone = true›
+  simp only [upd_thr, setCount_thr, upd_begun, setCount_begun, upd_owner, setCount_owner] at hb' ⊢
+  refine ⟨trivial, hi.aeNone hown, hb, by rw [hth]; assumption, trivial, ?_, ?_⟩
   · intro u hu hut
     have h1 := hb' u hu
     have h2 := hbnd u hu
@@ -187,6 +233,61 @@ theorem barM_action_by_last_arriver {n gens : Nat} (hn : 1 ≤ n) {s : BarM.Stat
     by_cases hut : t = u
     · subst hut; simp [hlt] at h1 ⊢; omega
     · simp only [hut, false_and, if_false] at h1 ⊢; omega
+
+open BarM in
+/-- what holds right after the step in which an action ends -/
+theorem barM_end_facts {s s' : BarM.State} {t : Nat} (hi : Inv s) (hi' : Inv s') (hn : s'.n = s.n)
+    (hact : s'.actions = s.actions + 1) (hb : isBar s t) (hpc' : (getT s'.thr t).pc = .notify)
+    (hleft : ∀ u, (getT s'.thr u).left = (getT s.thr u).left) :
+    s'.begun = s'.actions ∧ s'.owner = some t ∧
+      ∀ u, isBar s u → s'.actions ≤ (getT s'.thr u).arrived ∧ (getT s'.thr u).left < s'.actions := by
+  have hb' : isBar s' t := by unfold isBar at hb ⊢; rw [hn]; exact hb
+  have hpt := hi'.pcs t hb'
+  simp [pcOk, hpc'] at hpt
+  refine ⟨hpt.2.2.2, (hi'.mutex t).mp (by simp [hpc']), ?_⟩
+  intro u hu
+  have hu' : isBar s' u := by unfold isBar at hu ⊢; rw [hn]; exact hu
+  have h1 := (hi'.bnd u hu').1
+  have h2 := hi.leftEnd u hu
+  rw [hleft u]
+  omega
+
+open BarM in
+/-- **Mutex barrier: the action ends once per generation, under the mutex, before anyone is released.**
+    A transition changes `actions` (the number of ended actions) only by +1; it is then the end of the action
+    begun last (`begun = actions` afterwards), performed by a barrier thread `t` that holds the mutex and goes on to
+    `cv_.notify_all()`; at that moment every thread has arrived in the generation and NOBODY has left it:
+    no thread leaves generation g before `action_end` of g. -/
+theorem barM_action_end_before_release {n gens : Nat} (hn : 1 ≤ n) {s : BarM.State} (h : BarM.Reachable n gens s)
+    {t c : Nat} {o} (hs : BarM.step s t c = some o) :
+    o.st.actions = s.actions ∨
+    (o.st.actions = s.actions + 1 ∧ o.st.begun = o.st.actions ∧ isBar s t ∧ o.st.owner = some t ∧
+      (getT o.st.thr t).pc = .notify ∧
+      (∀ u, isBar s u → o.st.actions ≤ (getT o.st.thr u).arrived ∧ (getT o.st.thr u).left < o.st.actions)) := by
+  have hi := reachable_inv hn h
+  have hi' := inv_step hs hi
+  have hfr := frame_step hs
+  barm_step_cases hs
+  all_goals (first | (left; simp; done) | skip)
+  all_goals (
+    have hlt := lt_of_getElem? ‹s.thr[t]? = some _›
+    have hth := getT_of_getElem? ‹s.thr[t]? = some _›
+    have hb : isBar s t := isBar_of_pc hi hlt (by simp [*]))
+  · -- the arrival that completes the generation: the action ends in the same step iff it has no scheduling points
+    by_cases hay : s.actYields = 0
+    · right
+      have hf := barM_end_facts (t := t) hi hi' hfr.1 (by simp [beginEnded, hay]) hb
+        (by simp [getT_modify, hlt, beginPc, hay])
+        (by intro u; simp only [upd_thr, setCount_thr, getT_modify]; split <;> rfl)
+      exact ⟨by simp [beginEnded, hay], hf.1, hb, hf.2.1, by simp [getT_modify, hlt, beginPc, hay], hf.2.2⟩
+    · left; simp [beginEnded, hay]
+  · -- the last scheduling point of the action
+    right
+    have hf := barM_end_facts (t := t) hi hi' hfr.1 (by simp) hb
+      (by simp [getT_modify, hlt])
+      (by intro u; simp only [upd_thr, getT_modify]; split <;> rfl)
+    exact ⟨by simp, hf.1, hb, hf.2.1, by simp [getT_modify, hlt], hf.2.2⟩
+
 open BarM in
 /-- **Mutex barrier: no deadlock, reusable for any number of generations.** If no thread can take a step
     (without a spurious wake-up), then every thread — the n barrier threads, each of which calls `wait()` `gens`
@@ -224,13 +325,13 @@ theorem barM_no_deadlock {n gens : Nat} (hn : 1 ≤ n) {s : BarM.State} (h : Bar
     cases hpc : (getT s.thr u).pc <;> simp [hpc, hown] at hp hr ⊢
     · have := hu.2; omega
     · exact hr
-  -- nobody is a pending notifier, so every thread in the wait set waits for the current generation
-  have hgen : ∀ u, u ∈ s.ws → (getT s.thr u).left = s.actions := by
+  -- nobody is inside the action or a pending notifier, so every thread in the wait set waits for the current generation
+  have hgen : ∀ u, u ∈ s.ws → (getT s.thr u).left = s.begun := by
     rcases hi.wsGen with ⟨x, hbx, hx⟩ | hg
     · have hr := hrest x
       unfold BarM.enabled at hr
-      rw [pcOf_eq, hx] at hr
-      simp at hr
+      rw [pcOf_eq] at hr
+      cases hp : (getT s.thr x).pc <;> simp [hp] at hx hr
     · exact hg
   -- if somebody waited, all n threads would have arrived in the current generation
   have hnone : ∀ u, isBar s u → (getT s.thr u).pc = .finished := by
@@ -241,7 +342,7 @@ theorem barM_no_deadlock {n gens : Nat} (hn : 1 ≤ n) {s : BarM.State} (h : Bar
       have hlu := hgen u hws
       have hpu := hi.pcs u hu
       simp [pcOk, hcur] at hpu
-      have hall : ∀ v, 1 ≤ v → v ≤ s.n → (fun th : Thread => decide (th.arrived = s.actions + 1)) (getT s.thr v) = true := by
+      have hall : ∀ v, 1 ≤ v → v ≤ s.n → (fun th : Thread => decide (th.arrived = s.begun + 1)) (getT s.thr v) = true := by
         intro v h1 h2
         have hv : isBar s v := ⟨h1, h2⟩
         rcases hbar v hv with hfin | ⟨hwsv, curv, hcurv⟩
@@ -253,7 +354,7 @@ theorem barM_no_deadlock {n gens : Nat} (hn : 1 ≤ n) {s : BarM.State} (h : Bar
           have hpv := hi.pcs v hv
           simp [pcOk, hcurv] at hpv
           simp; omega
-      have hge := countP_ge_of_all (p := fun th : Thread => decide (th.arrived = s.actions + 1)) hlen hall
+      have hge := countP_ge_of_all (p := fun th : Thread => decide (th.arrived = s.begun + 1)) hlen hall
       have := hi.cnt
       have := hi.cntLt
       omega
@@ -269,41 +370,52 @@ theorem barM_no_deadlock {n gens : Nat} (hn : 1 ≤ n) {s : BarM.State} (h : Bar
   · exact hnone t ⟨by omega, by omega⟩
 
 open BarM in
-/-- when all barrier threads have finished, the action has run exactly `gens` times -/
+/-- when all barrier threads have finished, the action has begun and ended exactly `gens` times -/
 theorem barM_actions_total {n gens : Nat} (hn : 1 ≤ n) {s : BarM.State} (h : BarM.Reachable n gens s)
-    (hfin : ∀ u, isBar s u → (getT s.thr u).pc = .finished) : s.actions = gens := by
+    (hfin : ∀ u, isBar s u → (getT s.thr u).pc = .finished) : s.actions = gens ∧ s.begun = gens := by
   have hi := reachable_inv hn h
   have hp := reachable_params h
   have hb : isBar s 1 := ⟨by omega, by rw [hp.1]; exact hn⟩
   have h1 := hi.bnd 1 hb
   have h2 := hi.pcs 1 hb
+  have h3 := hi.leftEnd 1 hb
+  have h4 := hi.ae
   simp [pcOk, hfin 1 hb] at h2
   omega
 
 
-/-! Non-vacuity: two threads, two generations, one concrete interleaving in which thread 1 waits on the
-    condition variable in both generations; all invariants above apply to every prefix of it. -/
+/-! Non-vacuity: two threads, two generations, an action with one scheduling point inside, one concrete
+    interleaving in which thread 1 waits on the condition variable in both generations; all invariants above apply
+    to every prefix of it. -/
 def barMChoices : List (Nat × Nat) :=
-  [(0,0),(0,0),(1,0),(1,0),(1,0),(0,0),(2,0),(2,0),(2,0),(2,0),(2,0),(2,0),(1,0),(1,0),(1,0),(1,0),(1,0),(2,0),(2,0),(0,0),(0,0)]
+  [(0,0),(0,0),(1,0),(1,0),(1,0),(0,0),(2,0),(2,0),(2,0),(2,0),(2,0),(1,0),(1,0),(1,0),(1,0),(2,0),(2,0),(2,0),(2,0),(1,0),(1,0),(0,0),(0,0)]
 
-example : (BarM.runChoices (BarM.init 2 2) barMChoices).map
+example : (BarM.runChoices (BarM.init 2 2 1) barMChoices).map
     (fun s => (s.actions, s.step, s.thr.map (fun th => (th.arrived, th.left)), s.thr.all (fun th => th.pc == .finished)))
     = some (2, 0, [(0, 0), (2, 2), (2, 2)], true) := by decide
+
+example : (BarM.runChoices (BarM.init 2 2 1) barMChoices).map (fun s => (s.begun, s.actions)) = some (2, 2) := by decide
+
+/-- in the middle of the run above the first action is in progress: begun, not ended, nobody released -/
+example : (BarM.runChoices (BarM.init 2 2 1) (barMChoices.take 8)).map
+    (fun s => (s.begun, s.actions, s.owner, s.thr.map (fun th => th.left))) = some (1, 0, some 2, [0, 0, 0]) := by decide
 
 
 /-! ## ThreadBarrierSpin -/
 
 open BarS in
 /-- **Spin barrier: released together, action in between.** In every reachable state, for all barrier threads
-    `t`, `u`: `left t ≤ step ≤ actions ≤ arrived u` and `actions ≤ step + 1`.  A thread has completed its (g+1)-th
-    `wait()` only if `step_` was bumped g+1 times, which happened only after the action had run g+1 times, which
-    happened only after every thread had done its (g+1)-th `fetch_add`. -/
+    `t`, `u`: `left t ≤ step ≤ actions ≤ begun ≤ arrived u` and `begun ≤ step + 1`.  A thread has completed its
+    (g+1)-th `wait()` only if `step_` was bumped g+1 times, which happened only after the action had ENDED g+1 times;
+    the action has begun g+1 times only after every thread had done its (g+1)-th `fetch_add`. -/
 theorem barS_release_together {n gens : Nat} {y : Bool} (hn : 1 ≤ n) {s : BarS.State} (h : BarS.Reachable n gens y s)
     {t u : Nat} (ht : isBar s t) (hu : isBar s u) :
-    (getT s.thr t).left ≤ s.step ∧ s.step ≤ s.actions ∧ s.actions ≤ s.step + 1 ∧ s.actions ≤ (getT s.thr u).arrived := by
+    (getT s.thr t).left ≤ s.step ∧ s.step ≤ s.actions ∧ s.actions ≤ s.begun ∧ s.begun ≤ s.step + 1 ∧
+      s.begun ≤ (getT s.thr u).arrived := by
   have hi := reachable_inv hn h
   have hb := actions_bounds hi
-  exact ⟨(hi.bnd t ht).2.2, hb.1, hb.2.1, hb.2.2 u hu⟩
+  have hg := begun_bounds hi
+  exact ⟨(hi.bnd t ht).2.2, hb.1, hg.1, hg.2.2.1, hg.2.2.2 u hu⟩
 
 open BarS in
 /-- **Spin barrier: the releaser is the last arriver.** The thread whose `fetch_add` returns `n - 1` (and which
@@ -330,6 +442,7 @@ theorem barS_releaser_is_last_arriver {n gens : Nat} {y : Bool} (hn : 1 ≤ n) {
     | (simp [hlt] at hpost; done)
     | skip)
   all_goals (first | (simp [hlt, nextCall] at hpost; split at hpost <;> simp at hpost; done) | skip)
+  all_goals (first | (simp [hlt, beginPc] at hpost; split at hpost <;> simp at hpost; done) | skip)
   -- remaining: the completing fetch_add
   all_goals (
     refine ⟨⟨_, by rw [hth]; assumption⟩, by omega, ?_⟩
@@ -341,14 +454,14 @@ theorem barS_releaser_is_last_arriver {n gens : Nat} {y : Bool} (hn : 1 ≤ n) {
     simpa [hut'] using this)
 
 open BarS in
-/-- **Spin barrier: the action runs once per generation, by the releaser, before anyone is released.**
-    A transition changes `actions` only by +1, only as the `waiting_.store(0); lambda()` step of the releaser `t`,
-    taken when every thread has arrived in the current generation (`arrived = step + 1`) and nobody has left it
-    (`left ≤ step`); `step_` is bumped — releasing the spinners — only afterwards (`actions = step + 1`). -/
-theorem barS_action_by_releaser {n gens : Nat} {y : Bool} (hn : 1 ≤ n) {s : BarS.State}
+/-- **Spin barrier: the action begins once per generation, in the releaser.**
+    A transition changes `begun` only by +1, only as the `waiting_.store(0); lambda()` step of the releaser `t`,
+    taken when the previous action has ended (`begun = actions = step`), every thread has arrived in the current
+    generation (`arrived = step + 1`) and nobody has left it (`left ≤ step`). -/
+theorem barS_action_begin_by_releaser {n gens : Nat} {y : Bool} (hn : 1 ≤ n) {s : BarS.State}
     (h : BarS.Reachable n gens y s) {t c : Nat} {o} (hs : BarS.step s t c = some o) :
-    o.st.actions = s.actions ∨
-    (o.st.actions = s.actions + 1 ∧ s.actions = s.step ∧ o.st.step = s.step ∧ isBar s t ∧
+    o.st.begun = s.begun ∨
+    (o.st.begun = s.begun + 1 ∧ s.begun = s.step ∧ s.actions = s.step ∧ o.st.step = s.step ∧ isBar s t ∧
       (getT s.thr t).pc = .storeWaiting ∧
       ∀ u, isBar s u → (getT s.thr u).arrived = s.step + 1 ∧ (getT s.thr u).left ≤ s.step) := by
   have hi := reachable_inv hn h
@@ -363,9 +476,74 @@ theorem barS_action_by_releaser {n gens : Nat} {y : Bool} (hn : 1 ≤ n) {s : Ba
     have hpt := hi.pcs t hb
     simp [pcOk, hpcT] at hpt
     have hall := hi.relAll t hb (by simp [hpcT])
-    refine ⟨by simp, hpt.2.2.2.2, by simp, hb, hpcT, ?_⟩
+    refine ⟨by simp, hpt.2.2.2.2.2, hpt.2.2.2.2.1, by simp, hb, hpcT, ?_⟩
     intro u hu
     exact ⟨hall u hu, (hi.bnd u hu).2.2⟩)
+
+open BarS in
+/-- **Spin barrier: the action ends once per generation, before `step_` is published.**
+    A transition changes `actions` (the number of ended actions) only by +1, in the releaser `t`, which then is
+    at `step_.fetch_add(1)` — not yet executed (`step` unchanged and still `= actions` before); every thread has
+    arrived in the generation and NOBODY has left it (`left ≤ step`): no thread leaves generation g before
+    `action_end` of g. -/
+theorem barS_action_end_before_publish {n gens : Nat} {y : Bool} (hn : 1 ≤ n) {s : BarS.State}
+    (h : BarS.Reachable n gens y s) {t c : Nat} {o} (hs : BarS.step s t c = some o) :
+    o.st.actions = s.actions ∨
+    (o.st.actions = s.actions + 1 ∧ s.actions = s.step ∧ o.st.step = s.step ∧ isBar s t ∧
+      (getT o.st.thr t).pc = .bumpStep ∧
+      ∀ u, isBar s u → (getT s.thr u).arrived = s.step + 1 ∧ (getT s.thr u).left ≤ s.step ∧
+        (getT o.st.thr u).left = (getT s.thr u).left) := by
+  have hi := reachable_inv hn h
+  bars_step_cases hs
+  all_goals (first | (left; simp; done) | skip)
+  all_goals (
+    have hlt := lt_of_getElem? ‹s.thr[t]? = some _›
+    have hth := getT_of_getElem? ‹s.thr[t]? = some _›
+    have hb : isBar s t := isBar_of_pc hi hlt (by simp [*]))
+  · -- waiting_.store(0); lambda(): the action ends in the same step iff it has no scheduling points
+    have hpcT := (congrArg Thread.pc hth).trans ‹_ = Pc.storeWaiting›
+    have hpt := hi.pcs t hb
+    simp [pcOk, hpcT] at hpt
+    have hall := hi.relAll t hb (by simp [hpcT])
+    by_cases hay : s.actYields = 0
+    · right
+      refine ⟨by simp [beginEnded, hay], hpt.2.2.2.2.1, by simp, hb, by simp [getT_modify, hlt, beginPc, hay], ?_⟩
+      intro u hu
+      refine ⟨hall u hu, (hi.bnd u hu).2.2, ?_⟩
+      simp only [upd_thr, getT_modify]; split <;> rfl
+    · left; simp [beginEnded, hay]
+  · -- the last scheduling point of the action
+    have hpcT := (congrArg Thread.pc hth).trans ‹_ = Pc.act _›
+    have hpt := hi.pcs t hb
+    simp [pcOk, hpcT] at hpt
+    have hall := hi.relAll t hb (by simp [hpcT])
+    right
+    refine ⟨by simp, hpt.2.2.2.2.1, by simp, hb, by simp [getT_modify, hlt], ?_⟩
+    intro u hu
+    refine ⟨hall u hu, (hi.bnd u hu).2.2, ?_⟩
+    simp only [upd_thr, getT_modify]; split <;> rfl
+
+open BarS in
+/-- **Spin barrier: `step_` is published only after the action has ended.** A transition changes `step` only by
+    +1, only as the `step_.fetch_add(1)` of the releaser, and only when the action of the generation has begun AND
+    ended (`begun = actions = step + 1`). -/
+theorem barS_publish_after_action_end {n gens : Nat} {y : Bool} (hn : 1 ≤ n) {s : BarS.State}
+    (h : BarS.Reachable n gens y s) {t c : Nat} {o} (hs : BarS.step s t c = some o) :
+    o.st.step = s.step ∨
+    (o.st.step = s.step + 1 ∧ s.actions = s.step + 1 ∧ s.begun = s.step + 1 ∧ isBar s t ∧
+      (getT s.thr t).pc = .bumpStep) := by
+  have hi := reachable_inv hn h
+  bars_step_cases hs
+  all_goals (first | (left; simp; done) | skip)
+  all_goals (
+    have hlt := lt_of_getElem? ‹s.thr[t]? = some _›
+    have hth := getT_of_getElem? ‹s.thr[t]? = some _›
+    right
+    have hb : isBar s t := isBar_of_pc hi hlt (by simp [*])
+    have hpcT := (congrArg Thread.pc hth).trans ‹_ = Pc.bumpStep›
+    have hpt := hi.pcs t hb
+    simp [pcOk, hpcT] at hpt
+    exact ⟨by simp, hpt.2.2.2.2.1, hpt.2.2.2.2.2, hb, hpcT⟩)
 
 open BarS in
 /-- **Spin barrier: no deadlock, reusable for any number of generations** (under the fairness assumption built
@@ -429,9 +607,9 @@ theorem barS_no_deadlock {n gens : Nat} {y : Bool} (hn : 1 ≤ n) {s : BarS.Stat
   · exact hnone t ⟨by omega, by omega⟩
 
 open BarS in
-/-- when all barrier threads have finished, the action has run exactly `gens` times and `step_ = gens` -/
+/-- when all barrier threads have finished, the action has begun and ended exactly `gens` times and `step_ = gens` -/
 theorem barS_actions_total {n gens : Nat} {y : Bool} (hn : 1 ≤ n) {s : BarS.State} (h : BarS.Reachable n gens y s)
-    (hfin : ∀ u, isBar s u → (getT s.thr u).pc = .finished) : s.actions = gens ∧ s.step = gens := by
+    (hfin : ∀ u, isBar s u → (getT s.thr u).pc = .finished) : s.actions = gens ∧ s.begun = gens ∧ s.step = gens := by
   have hi := reachable_inv hn h
   have hp := reachable_params h
   have hb : isBar s 1 := ⟨by omega, by rw [hp.1]; exact hn⟩
@@ -439,19 +617,30 @@ theorem barS_actions_total {n gens : Nat} {y : Bool} (hn : 1 ≤ n) {s : BarS.St
   have h2 := hi.pcs 1 hb
   have h3 := actions_bounds hi
   have h4 := h3.2.2 1 hb
+  have h5 := begun_bounds hi
+  have h6 := h5.2.2.2 1 hb
   simp [pcOk, hfin 1 hb] at h2
   omega
 
 
-/-! Non-vacuity: three threads, two generations of `wait_yield()`, one concrete interleaving. -/
-def barSChoices : List (Nat × Nat) := 
-  [(0,0),(0,0),(1,0),(1,0),(1,0),(1,0),(1,0),(0,0),(2,0),(2,0),(2,0),(2,0),(2,0),(0,0),(3,0),(3,0),(3,0),(3,0),(3,0),(3,0),(3,0),(3,0),(3,0),(2,0),(2,0),(2,0),(2,0),(2,0),(1,0),(1,0),(1,0),(1,0),(1,0),(3,0),(2,0),(0,0),(0,0),(0,0)]
+/-! Non-vacuity: three threads, two generations of `wait_yield()`, an action with one scheduling point inside,
+    one concrete interleaving. -/
+def barSChoices : List (Nat × Nat) :=
+  [(0,0),(0,0),(1,0),(1,0),(1,0),(1,0),(1,0),(0,0),(2,0),(2,0),(2,0),(2,0),(2,0),(0,0),(3,0),(3,0),(3,0),(3,0),(3,0),(3,0),(1,0),(1,0),(1,0),(1,0),(1,0),(2,0),(2,0),(2,0),(2,0),(2,0),(3,0),(3,0),(3,0),(3,0),(3,0),(1,0),(2,0),(0,0),(0,0),(0,0)]
 
-example : (BarS.runChoices (BarS.init 3 2 true) barSChoices).map
+example : (BarS.runChoices (BarS.init 3 2 true 1) barSChoices).map
     (fun (s : BarS.State) => (s.actions, s.step, s.waiting, s.thr.map (fun (th : BarS.Thread) => (th.arrived, th.left))))
     = some (2, 2, 0, [(0, 0), (2, 2), (2, 2), (2, 2)]) := by decide
 
-example : (BarS.runChoices (BarS.init 3 2 true) barSChoices).map
+example : (BarS.runChoices (BarS.init 3 2 true 1) barSChoices).map (fun (s : BarS.State) => (s.begun, s.actions)) =
+    some (2, 2) := by decide
+
+/-- in the middle of the run above the first action is in progress: begun, not ended, `step_` not yet published -/
+example : (BarS.runChoices (BarS.init 3 2 true 1) (barSChoices.take 18)).map
+    (fun (s : BarS.State) => (s.begun, s.actions, s.step, s.thr.map (fun (th : BarS.Thread) => th.left))) =
+    some (1, 0, 0, [0, 0, 0, 0]) := by decide
+
+example : (BarS.runChoices (BarS.init 3 2 true 1) barSChoices).map
     (fun (s : BarS.State) => s.thr.all (fun (th : BarS.Thread) => th.pc == BarS.Pc.finished)) = some true := by decide
 
 
